@@ -102,6 +102,9 @@ def _case(draw):
     exotic = [] if has_prev else ['my-key', 'a.b', 'model v2', 'x[0]', '0']
     chain = draw(st.lists(st.sampled_from(STR_KEYS + [0, 1] + exotic), min_size=1, max_size=3))
     chain[0] = draw(st.sampled_from(STR_KEYS + exotic))    # a document root is a mapping with arbitrary keys; ints are fine deeper too
+    has_ops = any(str(n.get('tag', '')) in ('!clear', '!append', '!extend') for d in docs for _, n in tdoc.walk(d))
+    if has_ops and exotic and draw(st.booleans()):
+        chain = [draw(st.sampled_from(exotic))]           # an operator's target directly below a key that is not a plain name
     sib = None
     if draw(st.integers(0, 2)) == 0:
         sdocs = draw(S.tagged_stages(min_stages=1, max_stages=len(docs), notnew=False, density=3, max_leaves=5))
